@@ -99,6 +99,11 @@ var c16Corpus = []string{
 	"package main\n\ntype R = {Next: R}\n\nlet f (r:R) = r.Next\n",
 	"package main\n\ntype U =\n  | A of U\n  | B\n\nlet f (u:U) =\n  match u with\n  | A x -> 1\n  | B -> 0\n",
 	"package main\n\nlet f x y = f y x\n",
+	// indirect cycles through two distinct type variables (x ~ [y], y ~ [x]) and longer ones
+	"package main\n\nlet g x y =\n  let a = [x]\n  let b = [y]\n  let c = [a; y]\n  let d = [b; x]\n  c\n",
+	"package main\n\nlet g x y z =\n  let c = [[x]; y]\n  let d = [[y]; z]\n  let e = [[z]; x]\n  c\n",
+	"package main\n\nlet g x y =\n  let p = (x, [y])\n  let q = ([p], x)\n  let r = [q; y]\n  r\n",
+	"package main\n\nlet h f g =\n  let a = f g\n  let b = g f\n  a\n",
 	"package main\n\nlet f x = (x, f)\n",
 	"package main\n\nlet f (x:int) =\n  match x with\n",
 	"package main\n\nlet f (x:int) =\n  if x then\n",
